@@ -147,7 +147,7 @@ def plan(prop, tier):
                     gram("C12", "gram-q-asan", "c-asan", "q", 3 if q else 4, ["--tm", "u0" if q else "vary", "--fresh", "--la", "1,2", "--one", "0,1", "--cost", "0,1", "--rec", "1", "--ams", "0,2"]),
                     gram("C12", "gram-qe-asan", "c-asan", "qe", 3 if q else 4, ["--fresh", "--la", "1", "--one", "0,1", "--cost", "0,1", "--rec", "1", "--match", "1,3", "--ams", "0"]),
                     gram("C12", "gram-mini-asan", "c-asan", "mini", 4, ["--tm", "vary", "--cms", "3", "--fresh", "--la", "0,1,2", "--one", "0,1", "--cost", "0,1", "--rec", "1", "--ams", "0,2"]),
-                    gram("C12", "gram-cur-asan", "c-asan", "cur", 4 if q else 6, ["--la", "0,1,2", "--ams", "0,2"], shards=NPROC)]
+                    gram("C12", "gram-cur-asan", "c-asan", "cur", 4 if q else 5, ["--la", "0,1,2", "--ams", "0,2"], shards=NPROC)]
             P = dict(base, jobs=jobs, states_key="texts", transitions_key="texts", nontrivial_key="texts",
                      rule="union of the engines under ASan + UBSan(signed-integer-overflow, shift, divide-by-zero, null, bounds) + watchdog: all byte strings up to the length and all 1-edit mutants/prefixes of the seed texts as descriptions (exactly sized heap blocks), symbol names of 1..1000 characters through every message-producing error with strlen(message) <= 200, 300-symbol grammars with dense and sparse codes, a slice of the callback-level description product, API histories, the parse spaces of the gram engine incl. recovery, all-parses, cost pruning and the default allocator; any sanitizer report, signal, exit() or timeout is a violation with the case attached",
                      bounds={"byte_string_length": 4 if q else 5}, require={"texts": 100000, "parses": 100000, "definitions": 10000, "long_name_cases": 100})
